@@ -214,7 +214,9 @@ def main(argv=None):
         report.update(stats.report())
         report["wall_s"] = time.time() - t0
     except BaseException as e:  # harness failure of any kind
-        report["harness_error"] = "".join(traceback.format_exception(type(e), e, e.__traceback__))[-6000:]
+        tb = "".join(traceback.format_exception(type(e), e, e.__traceback__))
+        tb = "\n".join(l if len(l) < 400 else l[:400] + " ...[cut]" for l in tb.splitlines())
+        report["harness_error"] = tb if len(tb) < 8000 else tb[:2500] + "\n...\n" + tb[-3500:]
     finally:
         os.chdir(cwd0)
         shutil.rmtree(scratch, ignore_errors=True)
